@@ -7,6 +7,7 @@ package interp
 
 import (
 	"fmt"
+	"go/token"
 	"go/types"
 
 	"golang.org/x/tools/go/ssa"
@@ -26,14 +27,16 @@ type scheduler struct {
 	threads   []*gthread
 	cur       *gthread
 	abort     interface{} // panic payload raised in a child goroutine, re-raised in the main one
-	killed    bool
-	decisions int
+	killed      bool
+	decisions   int
+	preemptions int
 }
 
 var (
 	sched            *scheduler
 	ExploreSchedules bool
-	MaxSchedChoices  = 12
+	MaxSchedChoices  = 64
+	MaxPreemptions   = 2
 )
 
 func newScheduler() *scheduler {
@@ -80,16 +83,43 @@ func (s *scheduler) dispatch(me *gthread) {
 	}
 	next := rs[0]
 	// default policy: continue with the current thread if it is runnable
+	meRunnable := false
 	for _, t := range rs {
 		if t == me {
 			next = me
+			meRunnable = true
 		}
 	}
-	if ExploreSchedules && len(rs) > 1 && s.decisions < MaxSchedChoices && !s.killed && s.abort == nil {
-		s.decisions++
-		c := eng.Choice("sched", len(rs))
-		next = rs[c]
-		eng.assumptions[fmt.Sprintf("schedules: context switches only at synchronisation operations; at most %d scheduling choices per path, then run-to-block", MaxSchedChoices)] = true
+	if ExploreSchedules && len(rs) > 1 && !s.killed && s.abort == nil {
+		// preemption-bounded exploration: staying on the current thread is free, switching away
+		// from a runnable thread costs one preemption; when the current thread blocks or ends,
+		// the choice among the others is free (but counted against MaxSchedChoices)
+		var cands []*gthread
+		if meRunnable {
+			cands = append(cands, me)
+			if s.preemptions < MaxPreemptions {
+				for _, t := range rs {
+					if t != me {
+						cands = append(cands, t)
+					}
+				}
+			}
+		} else if s.decisions < MaxSchedChoices {
+			cands = rs
+		} else {
+			cands = rs[:1]
+		}
+		if len(cands) > 1 {
+			s.decisions++
+			c := eng.Choice("sched", len(cands))
+			next = cands[c]
+			if meRunnable && next != me {
+				s.preemptions++
+			}
+			eng.assumptions[fmt.Sprintf("schedules: context switches only at synchronisation / file-system operations; at most %d preemptions per path", MaxPreemptions)] = true
+		} else {
+			next = cands[0]
+		}
 	}
 	if next == me {
 		return
@@ -116,6 +146,10 @@ type deadlock struct{}
 func inconclusiveOrDeadlock() interface{} { return deadlock{} }
 
 func spawnGoroutine(fr *frame, instr *ssa.Go, fn value, args []value) {
+	pos := token.NoPos
+	if instr != nil {
+		pos = instr.Pos()
+	}
 	s := sched
 	parent := s.cur
 	t := &gthread{id: len(s.threads), wake: make(chan struct{}, 1)}
@@ -132,7 +166,7 @@ func spawnGoroutine(fr *frame, instr *ssa.Go, fn value, args []value) {
 			p := recover()
 			t.done = true
 			switch p.(type) {
-			case nil, killSignal:
+			case nil, killSignal, processCrash:
 			default:
 				if s.abort == nil && !s.killed {
 					if _, isT := p.(targetPanic); isT {
@@ -161,7 +195,7 @@ func spawnGoroutine(fr *frame, instr *ssa.Go, fn value, args []value) {
 		if s.killed {
 			panic(killSignal{})
 		}
-		call(fr.i, nil, instr.Pos(), fn, args)
+		call(fr.i, nil, pos, fn, args)
 	}()
 	// the spawn itself is a scheduling point
 	s.yield(nil)
